@@ -13,7 +13,7 @@
    trips and parse-then-print-then-parse stability. *)
 From Coq Require Import String Ascii.
 From Coq Require Import NArith ZArith List Bool.
-From HV Require Import Base.BSet Base.Bytes Base.Strto Base.Snprintf Bitmap.BitmapText Bitmap.BitmapTextProofs.
+From HV Require Import Base.BSet Base.Bytes Base.Strto Base.Snprintf Bitmap.BitmapText Bitmap.BitmapTextProofs Bitmap.BitmapTextProofsList.
 Import ListNotations.
 Local Open Scope N_scope.
 
@@ -79,6 +79,24 @@ Print Assumptions parse_hwloc_deterministic.
 
 Example nul_terminated_non_vacuous : nul_terminated (cstr "0,2,64-65,100-").
 Proof. exists 14. apply (cstring_app (bytes_of_string "0,2,64-65,100-") []). repeat constructor; discriminate. Qed.
+
+(* ================= round trip, list format: every set whose indexes fit an int =================
+   (the C code computes indexes in int; N.size (fin s) bounds every index the
+   printer emits, for finite and infinite sets alike) *)
+Theorem roundtrip_list : forall s, N.size (fin s) < 2147483648 ->
+  exists t, text_list s = Some t /\ parse_list (t ++ [0]) = Ok (Some s).
+Proof. exact roundtrip_list_gen. Qed.
+Print Assumptions roundtrip_list.
+
+Theorem parse_stable_list : forall str b, parse_list str = Ok (Some b) -> N.size (fin b) < 2147483648 ->
+  exists t, text_list b = Some t /\ parse_list (t ++ [0]) = Ok (Some b).
+Proof. intros str b _ H. now apply roundtrip_list_gen. Qed.
+Print Assumptions parse_stable_list.
+
+Example roundtrip_list_non_vacuous :
+  let s := abs (BM [5; 18446744004990074883] true) in
+  N.size (fin s) < 2147483648 /\ option_map (@length N) (text_list s) = Some 14%nat.
+Proof. split; vm_compute; reflexivity. Qed.
 
 (* ================= round trip and stability: bounded domain only =================
    MISSING for the full statements: the induction over the printed groups /
